@@ -3,6 +3,7 @@ package main
 import (
 	"encoding/json"
 	"fmt"
+	libmem "github.com/containers/nri-plugins/pkg/resmgr/lib/memory"
 	"regexp"
 	"sort"
 	"strings"
@@ -191,6 +192,17 @@ func (o *oracles) toldAndZones() (string, map[string]told) {
 	for _, y := range w.rt.active() {
 		t[y.spec.ID] = y.t
 		fmt.Fprintf(&b, "%s %s\n", y.spec.ID, y.t)
+	}
+	// how much memory the policy's allocator holds for each live container
+	// (the amount is part of the allocation; where it lies is in the zones)
+	if a := o.memAllocator(); a != nil {
+		sizes := map[string]int64{}
+		a.ForeachRequest(nil, func(r *libmem.Request) bool { sizes[r.ID()] = r.Size(); return true })
+		for _, y := range w.rt.active() {
+			if sz, ok := sizes[y.spec.ID]; ok {
+				fmt.Fprintf(&b, "%s holds %d bytes in the memory allocator\n", y.spec.ID, sz)
+			}
+		}
 	}
 	b.WriteString(o.zonesDump())
 	return b.String(), t
